@@ -213,7 +213,7 @@ fn session(fields: Vec<String>) -> Vec<String> {
                 match r {
                     Ok(Ok(Some(Value::Void))) | Ok(Ok(None)) => { items.push("v ".to_string()); items.push("e ".to_string()); }
                     Ok(Ok(Some(v))) => { items.push(format!("v {}", crate::esc(&format!("{}", v)))); items.push("e ".to_string()); }
-                    Ok(Err(e)) => { items.push("v ".to_string()); items.push(format!("e {}", crate::err_kind(&e))); }
+                    Ok(Err(e)) => { items.push("v ".to_string()); items.push(format!("e {} {}", crate::err_kind(&e), crate::esc(&format!("{}", e)))); }
                     Err(p) => { items.push("v ".to_string()); items.push(format!("e {}", crate::panic_message(p))); }
                 }
                 continue;
@@ -221,7 +221,7 @@ fn session(fields: Vec<String>) -> Vec<String> {
             match r {
                 Ok(Ok(Some(Value::Void))) | Ok(Ok(None)) => (),
                 Ok(Ok(Some(v))) => println!("{}", v),
-                Ok(Err(e)) => errs.push(format!("E {}", crate::err_kind(&e))),
+                Ok(Err(e)) => errs.push(format!("E {} {}", crate::err_kind(&e), crate::esc(&format!("{}", e)))),
                 Err(p) => errs.push(crate::panic_message(p)),
             }
         }
